@@ -90,7 +90,7 @@ def verdictToJson (v : Verdict) : Json :=
     ("noExtra", v.noExtra), ("noneMissing", v.noneMissing), ("unmatchedSame", v.unmatchedSame)]
 
 /-- ops:
-    `run`   {fs, jobs, plan, cleanup?, links?} → {outcome, final, events, routes, wholeEverywhere}
+    `run`   {fs, jobs, plan, cleanup?, links?, outopt?} → {outcome, final, events, routes, wholeEverywhere, outplan}
             (`links` absent = no link table: a name is its own inode; job `out` is a path spelling)
     `judge` {before, after, srcs: [[name, newBytes]], end} → verdict of the C15 monitor. -/
 def handle (op : String) (j : Json) : Except String Json := do
@@ -118,6 +118,34 @@ def handle (op : String) (j : Json) : Except String Json := do
     for e in links.ino do
       for e' in links.ino do
         if e.2 == e'.2 && fs.get? e.1 != fs.get? e'.1 then throw s!"hard links {e.1} {e'.1} differ"
+    -- `outopt` {value: null|string, isdir: bool, nin: n}: the step's `out` option; the per-file out is then
+    -- what the model's `planOut` yields (the jobs' own `out` fields are ignored)
+    let outopt ← match j.getObjVal? "outopt" with
+      | .ok .null => pure none
+      | .ok oj => do
+        let v ← match oj.getObjVal? "value" with
+          | .ok .null => pure none
+          | .ok s => do pure (some (← s.getStr?))
+          | .error _ => pure none
+        let isdir ← (← oj.getObjVal? "isdir").getBool?
+        let nin ← jsonNat? (← oj.getObjVal? "nin")
+        pure (some (v, isdir, nin))
+      | .error _ => pure none
+    let op : Option OutPlan := outopt.map fun (v, isdir, nin) => planOut v isdir nin
+    let jobs : List Job := match op with
+      | none => jobs
+      | some p => jobs.map (Job.withOut p)
+    let planName : String := match op with
+      | none => "per-job"
+      | some .inplace => "inplace"
+      | some (.intoDir _) => "dir"
+      | some (.toFile _) => "file"
+      | some .tooMany => "toomany"
+    let tooMany : Bool := op == some OutPlan.tooMany
+    if tooMany then
+      return Json.mkObj [
+        ("outcome", outcomeToJson (.raised 0)), ("final", fsToJson fs), ("events", Json.arr #[]),
+        ("routes", Json.arr #[]), ("wholeEverywhere", true), ("outplan", planName)]
     let r := runJobsL { cleanupWrite := cleanup } plan 0 links fs jobs
     -- the monitor evaluated on every state of the model's own trace (sanity, also proved)
     let srcs := jobs.map fun jb => (jb.src, newContent jb.body)
@@ -127,7 +155,7 @@ def handle (op : String) (j : Json) : Except String Json := do
       ("final", fsToJson (final fs r.2)),
       ("events", Json.arr (r.2.map fun ev => Json.str ev.1).toArray),
       ("routes", Json.arr ((routesOf links fs jobs).map Json.str).toArray),
-      ("wholeEverywhere", whole)])
+      ("wholeEverywhere", whole), ("outplan", planName)])
   | "judge" =>
     let before ← fsOfJson (← j.getObjVal? "before")
     let after ← fsOfJson (← j.getObjVal? "after")
